@@ -5,8 +5,13 @@ package main
 // Registration of the history-based properties C03 C05 C07 C11 C14.
 
 import (
+	"context"
 	"encoding/json"
+	"fmt"
 	"reflect"
+	"time"
+
+	am "github.com/pancsta/asyncmachine-go/pkg/machine"
 )
 
 func histGen(name string, o GenOpt) func(r *Rng) (string, *HistInput) {
@@ -43,7 +48,10 @@ func init() {
 			600, 20000,
 			"random schemas and histories; negotiation vetoes 0-50%, nested mutations, tiny queue limits (15%), "+
 				"CanAdd/CanRemove directly followed by the same Add/Remove; every top-level call is judged on its own "+
-				"transition record; distinct by (input, observation); non-trivial = at least one transition", nil)
+				"transition record; plus an early-cancel stream: every mutation / check entry point called on a machine that "+
+				"is backing off (LastHandlerDeadline just hit) or disposed; distinct by (input, observation); "+
+				"non-trivial = at least one transition", nil,
+			histOpts{caseType: "c03case", wrap: "C03H", extra: c03Early})
 	})
 
 	register("C05", func(c *Ctx) error {
@@ -189,4 +197,55 @@ func runHistCasesRerun(c *Ctx, prop, evalMod string, gens []func(r *Rng) (string
 	}
 	out.Close(rule, map[string]any{"executions": totalRuns, "reruns_per_case": reruns})
 	return nil
+}
+
+// c03Early: one call on a backing-off or disposed machine.
+func c03Early(out *Out) {
+	names := am.S{"Sa", "Sb", am.StateException}
+	for mode := 0; mode < 2; mode++ {
+		for call := 0; call < 9; call++ {
+			m := am.New(context.Background(), am.Schema{"Sa": {}, "Sb": {}}, &am.Opts{Id: "c03e"})
+			must(m.VerifyStates(names))
+			m.Add1("Sa", nil)
+			before := fmt.Sprint(m.Time(nil), m.ActiveStates(nil), m.QueueTick())
+			if mode == 0 {
+				now := time.Now()
+				m.LastHandlerDeadline.Store(&now)
+			} else {
+				m.Dispose()
+				<-m.WhenDisposed()
+			}
+			var res am.Result
+			switch call {
+			case 0:
+				res = m.Add1("Sb", nil)
+			case 1:
+				res = m.Remove1("Sa", nil)
+			case 2:
+				res = m.Set(am.S{"Sb"}, nil)
+			case 3:
+				res = m.Toggle1("Sb", nil)
+			case 4:
+				res = m.AddErr(errScripted, nil)
+			case 5:
+				res = m.CanAdd1("Sb", nil)
+			case 6:
+				res = m.CanRemove1("Sa", nil)
+			case 7:
+				res = m.EvAdd1(nil, "Sb", nil)
+			case 8:
+				res = m.EvRemove1(nil, "Sa", nil)
+			}
+			unchanged := true
+			if mode == 0 {
+				m.LastHandlerDeadline.Store(nil)
+				unchanged = before == fmt.Sprint(m.Time(nil), m.ActiveStates(nil), m.QueueTick())
+			}
+			in := map[string]any{"early_case": true, "mode": mode, "call": call}
+			obs := map[string]any{"result": uint64(res), "unchanged": unchanged}
+			out.Count("early_cancel_mode", []string{"backoff", "disposed"}[mode])
+			out.Add("early-cancel", in, obs, fmt.Sprintf("C03E {| e_mode := %d; e_call := %d; o_canceled := %s; o_unchanged := %s |}",
+				mode, call, coqBool(res == am.Canceled), coqBool(unchanged)), false, fmt.Sprintf("early:%d:%d", mode, call))
+		}
+	}
 }
